@@ -69,3 +69,10 @@ import Spydr.Eblif.FragCheck
 #print axioms Spydr.Eblif.eblif_roundtrip_any_order
 #print axioms Spydr.Eblif.fragFull_in
 #print axioms Spydr.Eblif.fragAny_in
+#print axioms Spydr.Eblif.eblif_roundtrip_covers
+#print axioms Spydr.Eblif.eblif_covers_read
+#print axioms Spydr.Eblif.eblif_self_contained_text
+#print axioms Spydr.Eblif.eblif_undeclared_leaf_text
+#print axioms Spydr.Eblif.eblif_onNet_exact_text
+#print axioms Spydr.Eblif.leaf_port_shrinks
+#print axioms Spydr.Eblif.eblif_roundtrip_leaf_ports
